@@ -29,7 +29,7 @@ META = dict(
     stubs=["ThreadPoolExecutor = deferred executor (jobs forced at result())", "np.std = fresh value >= 0", "np.ceil = bounded threshold case split",
            "Continuum.get_best_alignment / get_best_soft_alignment / get_fast_alignment / measure_best_window_size = spies returning alignments with fresh symbolic disorders",
            "sampler = stub returning a fresh tagged continuum per access"],
-    assumptions=["chance disorders > 0", "observed disorder >= 0", "0 < numeric precision < 1"],
+    assumptions=["chance disorders > 0 - or, without a precision level, >= 0 provided the observed disorder is 0 when they are all 0", "observed disorder >= 0", "0 < numeric precision < 1"],
     cfg_budget_s=dict(quick=240, thorough=900),
 )
 
@@ -69,7 +69,14 @@ def install_spies(ns, ctx, rec, fast_window=float("inf"), schedule=None, rng=Non
         def spy(self, dissimilarity, *a):
             lo = 0 if getattr(self, "tag", None) == "input" else None
             d = ctx.fresh("obs" if lo == 0 else "ch!", lo=0)
-            if lo is None:
+            if rec.get("allow_degenerate"):
+                # degenerate case (no precision level only): every chance disorder may be 0 provided the observed one is 0 too
+                # (identical annotators whose samples also agree); 1 - observed/0 with observed > 0 is defined by nobody
+                Z = ctx.notes.get("degenerate")
+                if Z is None:
+                    Z = ctx.notes["degenerate"] = ctx.fresh_bool("degenerate").e
+                ctx.solver.add(z3.Or(d.e > 0, Z) if lo is None else z3.Implies(Z, d.e == 0))
+            elif lo is None:
                 ctx.solver.add(d.e > 0)
             A = al.Alignment([], self, disorder=d)
             A.kind, A.of, A.args = kind, self, a
@@ -126,7 +133,7 @@ def harness(cfg, ns, schedule_factory=None):
             return identical(ctx)
         if mode == "reuse":
             return reuse(ctx)
-        rec = dict(alignments=[], measure=[], inits=[], drawn_in_job=[])
+        rec = dict(alignments=[], measure=[], inits=[], drawn_in_job=[], allow_degenerate=(cfg["prec"] is None and schedule_factory is None))
         rng = stubs.RNG(ctx, max_draws=10)
         rec["rng"] = rng
         ns.np.random = rng
